@@ -214,7 +214,8 @@ class BuildDirector(SectionLineParser):
             # center of geometry
             mapped_coords = map_from_CoG(coords)
             self.templates[graph_hash] = mapped_coords
-            self.resnames_to_hash[resname] = graph_hash
+            # several templates may carry the same residue name
+            self.resnames_to_hash.setdefault(resname, []).append(graph_hash)
             self.current_template = None
 
     def finalize(self, lineno=0):
@@ -238,11 +239,12 @@ class BuildDirector(SectionLineParser):
 
         # if template graphs and volumes are provided
         # make sure that volumes are indexed by the hash
-        for resname, graph_hash in self.resnames_to_hash.items():
+        for resname, graph_hashes in self.resnames_to_hash.items():
             if resname in self.topology.volumes:
                 # the entry by name stays: another residue of that name
                 # that has a different template still needs it
-                self.topology.volumes[graph_hash] = self.topology.volumes[resname]
+                for graph_hash in graph_hashes:
+                    self.topology.volumes[graph_hash] = self.topology.volumes[resname]
 
     @staticmethod
     def _tag_nodes(molecule, keyword, option, molname=""):
